@@ -560,10 +560,13 @@ def concrete_run(case):
                     for circular in (True, False):
                         k = Controller('k', [f's{i}' for i in range(size)])
                         k.set_index(cur)
-                        k.modify_controller(step, circular)
+                        ret = k.modify_controller(step, circular)
                         want = (cur + step) % size if circular else min(max(cur + step, 0), size - 1)
                         if k.current_index != want:
                             bad.append(f'modify_controller(size={size}, current={cur}, step={step}, circular={circular}) -> {k.current_index}')
+                        if (circular and ret != step) or (not circular and ret not in (want - cur, cur - want)):
+                            bad.append(f'modify_controller(size={size}, current={cur}, step={step}, circular={circular}) reports a '
+                                       f'move of {ret} while the index went from {cur} to {k.current_index}')
                         if circular:
                             k.modify_controller(-step, True)
                             if k.current_index != cur:
